@@ -2,6 +2,7 @@
 //! reader consumes exactly what the writer produced. Bare codec for the whole catalogue;
 //! header containers (save_noschema / save with schema) for representative types.
 use crate::common::*;
+use crate::props::*;
 use crate::vt::*;
 use savefile::prelude::*;
 use std::io::Cursor;
@@ -9,14 +10,7 @@ use std::io::Cursor;
 macro_rules! rt_harness {
     ($name:ident, $t:ty, $unwind:expr, $len:expr) => {
         kproof!($name, $unwind, {
-            set_len($len);
-            let x: $t = <$t as VT>::any();
-            let (buf, n) = ser::<$t, REFCAP>(&x, 0).unwrap();
-            let (y, left) = de::<$t>(&buf[..n], 0).unwrap();
-            assert!(left == 0, "C01: loading did not consume exactly the bytes saving produced");
-            assert!(x.same(&y), "C01: loaded value differs from the saved value");
-            std::mem::forget(x);
-            std::mem::forget(y);
+            roundtrip_check::<$t>($len);
             kani::cover!(true, "reached end");
         });
     };
